@@ -369,11 +369,119 @@ def p_C14(ctx):
     return ctx.finish("histories Evaluate ; AddPv(delta) ; Evaluate: TLC enumerates buildings x increments on the lattice (regulatory sets) and the pairs are replayed; random buildings and shipped files with random increments, k in {0,1/2,1}, both load-matching modes")
 
 
+C08_SHAPES = [
+    # output-energy line first, no on-site electricity
+    "2, SALIDA, CAL, 3.0\n2, CONSUMO, CAL, ELECTRICIDAD, 1.0\n2, CONSUMO, CAL, EAMBIENTE, 2.0",
+    # output-energy lines and PV declared after them
+    "1, SALIDA, ACS, 5.0\n1, CONSUMO, ACS, GASNATURAL, 6.0\n0, PRODUCCION, EL_INSITU, 4.0\n0, CONSUMO, ILU, ELECTRICIDAD, 2.0",
+    # auxiliaries as the only electricity of the building
+    "1, CONSUMO, ACS, GASNATURAL, 10.0\n1, AUX, 1.5",
+    # cogeneration exporting to non-EPB uses
+    "0, CONSUMO, ILU, ELECTRICIDAD, 1.0\n0, CONSUMO, NEPB, ELECTRICIDAD, 4.0\n3, PRODUCCION, EL_COGEN, 6.0\n3, CONSUMO, COGEN, GASNATURAL, 20.0",
+    # exported ambient and solar energy (surplus declared production), non-EPB use of heat
+    "1, CONSUMO, ACS, EAMBIENTE, 2.0\n1, PRODUCCION, EAMBIENTE, 5.0\n2, CONSUMO, CAL, TERMOSOLAR, 1.0\n2, PRODUCCION, TERMOSOLAR, 4.0\n0, CONSUMO, NEPB, EAMBIENTE, 1.0",
+    # PV + cogeneration + non-EPB use + district heating, several steps
+    "0, CONSUMO, ILU, ELECTRICIDAD, 1.0, 5.0\n0, CONSUMO, NEPB, ELECTRICIDAD, 1.0, 0.0\n0, PRODUCCION, EL_INSITU, 3.0, 1.0\n3, PRODUCCION, EL_COGEN, 2.0, 2.0\n3, CONSUMO, COGEN, BIOMASA, 7.0, 9.0\n4, CONSUMO, CAL, RED1, 3.0, 3.0\n4, CONSUMO, ACS, RED2, 3.0, 3.0",
+    # single-service system with auxiliaries and output energy
+    "1, CONSUMO, REF, ELECTRICIDAD, 4.0\n1, SALIDA, REF, -12.0\n1, AUX, 0.5",
+]
+
+
+def p_C08(ctx):
+    st = lattice(ctx)
+    runs = [{"tag": "full"}, {"tag": "strip", "strip": True}]
+    ctx.replay(with_runs(stride(vlib.mc_cases(st), 3 if ctx.quick else 1, ctx.seed % 3 if ctx.quick else 0), runs), "lattice", "Trace_C08")
+    ctx.samples += ctx.sample_from_trace(ctx.last_trace, 2, fields=("case", "tag", "comps", "fac"))
+    shapes = []
+    for t in C08_SHAPES:
+        for loc in ("PENINSULA", "CANARIAS"):
+            for lm in (False, True):
+                shapes.append({"name": "shape", "src": {"text": t}, "fac": {"mode": "loc", "loc": loc, "red1": [500, 1000, 200]},
+                               "kexp": [1, 2], "area": [1, 1], "lm": lm, "runs": runs})
+        shapes.append({"name": "shape-user", "src": {"text": t}, "fac": {"mode": "file", "path": REPO + "/test_data/factores_paso_test.csv"},
+                       "kexp": [1, 2], "area": [1, 1], "lm": False, "runs": runs})
+    ctx.replay(shapes, "shapes", "Trace_C08")
+    ctx.samples += ctx.sample_from_trace(ctx.last_trace, 1, fields=("case", "tag", "comps"))
+    ctx.replay(file_cases(runs, locs=("PENINSULA", "BALEARES")), "files", "Trace_C08")
+    ctx.replay(rnd(ctx, 300, 10000, runs, aux=True), "random", "Trace_C08")
+    ctx.assumptions = [TOL_NOTE, TRUST, "model level: MC_C02!CheckStrip (Strip keeps every key an evaluation looks up) on the lattice", "the CLI default path (strip unless -F) is exercised by the C19/C16 checks"]
+    return ctx.finish("histories Evaluate(full) ; Strip ; Evaluate(stripped): lattice (one third in the quick tier), hand-written shapes of the quantifier (output lines first, auxiliaries only, cogeneration to non-EPB uses, exported ambient/solar), shipped files, random buildings with auxiliaries; non-trivial = cases where strip removed at least one factor")
+
+
+def layout_runs(n, r):
+    rs = [{"tag": "base"}]
+    for i in range(2):
+        p = list(range(1, n + 1))
+        r.shuffle(p)
+        rs.append({"tag": "perm%d" % i, "perm": p})
+    for m in (2, 3, 4):
+        if n * m <= 48:
+            rs.append({"tag": "sub%d" % m, "sub": m})
+    return rs
+
+
+def steps_of(c):
+    return len(c["src"]["comps"][0]["v"]) if "comps" in c["src"] else file_steps(c["src"]["file"])
+
+
+def p_C09(ctx):
+    import random
+    r = random.Random(ctx.seed)
+    ctx.mc("MC_C09", "MC_C09_quick.cfg" if ctx.quick else "MC_C09_thorough.cfg")
+    st = lattice(ctx)
+    def add(cs):
+        for c in cs:
+            c = dict(c)
+            c["runs"] = layout_runs(steps_of(c), r)
+            yield c
+    ctx.replay(add(stride(vlib.mc_cases(st), 6 if ctx.quick else 1, ctx.seed % 6 if ctx.quick else 0)), "lattice", "Trace_C09")
+    ctx.samples += ctx.sample_from_trace(ctx.last_trace, 2, fields=("case", "tag", "run", "comps"))
+    ctx.replay(add(file_cases(None)), "files", "Trace_C09")
+    ctx.replay(add(file_cases(None, kexp=(0, 1))), "files-k0", "Trace_C09")
+    def lmon(cs):
+        for c in cs:
+            c["lm"] = True
+            yield c
+    ctx.replay(lmon(add(file_cases(None))), "files-lm", "Trace_C09")
+    ctx.replay(add(rnd(ctx, 120, 5000, None)), "random", "Trace_C09")
+    ctx.nontrivial = set(range(ctx.ncases))
+    ctx.assumptions = [TOL_NOTE, TRUST, "model level: MC_C09!CheckLayout (all permutations, subdivision in integral form) exactly on the lattice"]
+    return ctx.finish("histories Evaluate ; Permute(pi) / Subdivide(m) ; Evaluate: the logged transformed input is checked against the specification's transform, annual fields must be equal and per-step vectors permuted / subdivided; lattice (one sixth in quick tier), shipped files (k_exp 0 and 1, load matching off and on), random buildings")
+
+
+def p_C11(ctx):
+    ctx.mc("MC_C09", "MC_C09_quick.cfg" if ctx.quick else "MC_C09_thorough.cfg")
+    st = lattice(ctx)
+    SC = [[1, 64], [1, 8], [1, 2], [2, 1], [16, 1], [1024, 1], [3, 1], [1, 10]]
+    def add(cs):
+        for c in cs:
+            c = dict(c)
+            a = c["area"]
+            rs = [{"tag": "base"}]
+            for n, d in SC:
+                rs.append({"tag": "s%d_%d" % (n, d), "scale": [n, d]})
+            for n, d in ([2, 1], [1, 4], [10, 1]):
+                rs.append({"tag": "a%d_%d" % (n, d), "areamul": [n, d], "area": [a[0] * n, a[1] * d]})
+            c["runs"] = rs
+            yield c
+    ctx.replay(add(stride(vlib.mc_cases(st), 12 if ctx.quick else 1, ctx.seed % 12 if ctx.quick else 0)), "lattice", "Trace_C11")
+    ctx.samples += ctx.sample_from_trace(ctx.last_trace, 2, fields=("case", "tag", "run", "comps"))
+    ctx.replay(add(file_cases(None)), "files", "Trace_C11")
+    ctx.replay(add(rnd(ctx, 100, 5000, None)), "random", "Trace_C11")
+    ctx.nontrivial = set(range(ctx.ncases))
+    ctx.assumptions = [TOL_NOTE, TRUST, "bit-exact scaling for powers of two is not claimed (hash-map summation order differs between runs)", "scalings that take a non-zero value below 0.01 kWh are outside the quantifier and are skipped by the harness",
+                       "model level: MC_C09!CheckLayout (ScaleInt) exactly on the lattice"]
+    return ctx.finish("histories Evaluate ; Scale(c) / SetArea(c*A) ; Evaluate with c in {1/64,1/8,1/2,2,16,1024,3,1/10} and area factors {2,1/4,10}; results of scaled runs are logged in units of c so that homogeneity is equality of the logged integers; RER, f_match and the DHW fraction (value or error class) must not move")
+
+
 PROPS = {
     "C01": p_C01,
     "C02": p_C02,
     "C03": p_C03,
     "C04": p_C04,
+    "C08": p_C08,
+    "C09": p_C09,
+    "C11": p_C11,
     "C12": p_C12,
     "C13": p_C13,
     "C14": p_C14,
